@@ -821,6 +821,17 @@ def check_property(prop, tier, seed):
         raise Broken('correspondence run failed: ' + json.dumps(corr['errors'])[:1500])
     rel = [m for m in corr['mismatches'] if section_relevant(prop, m)]
 
+    # (4b) thorough tier: the harness's handler mode against the real DeliverTx path (run once per tree state)
+    txm = None
+    if tier == 'thorough':
+        txm = run_txmode(seed, th)
+        if txm['errors']:
+            raise Broken('tx-mode cross-check failed to run: ' + json.dumps(txm['errors'])[:1500])
+        if txm['mismatches']:
+            m = txm['mismatches'][0]
+            raise Broken('harness handler mode and the real DeliverTx path disagree (%d operations; first: %s at operation %d of %s: %s | %s)' % (
+                len(txm['mismatches']), m['kind'], m['index'], m['file'], m['op'][:300], json.dumps(m['detail'])[:600]))
+
     # (5) pure probes
     probe = run_probe(prop, tier, seed, th) if P.get('probe') else None
     det = run_determinism(tier, seed, th) if P.get('determinism') else None
@@ -912,6 +923,8 @@ def check_property(prop, tier, seed):
         cov['probe'] = {k: v for k, v in probe.items() if k not in ('violations',)}
     if det:
         cov['determinism_reruns'] = {k: v for k, v in det.items() if k not in ('violations',)}
+    if txm:
+        cov['txmode_crosscheck'] = {k: v for k, v in txm.items() if k not in ('mismatches', 'errors')}
     return finish(prop, tier, seed, cov, violations, known_lines, time.time() - t0)
 
 
@@ -1001,6 +1014,55 @@ def run_determinism(tier, seed, th):
                 break
     json.dump(res, open(summ, 'w'), indent=1)
     return res
+
+
+def run_txmode(seed, th):
+    """Thorough tier: cross-check of the harness itself (DESIGN.md section 3.4). Every correspondence run delivers
+    transactions in HANDLER MODE - harness/sim/app.go Sim.Deliver re-implements what BaseApp.runTx/runMsgs do for one
+    message (ValidateBasic, the routed handler on a branch written only on success, a panic discards it). Here the
+    same histories are executed a second time in TX MODE (`hubsim run -tx`, harness/sim/txmode.go): every `tx` whose
+    sender's key the harness holds is a signed transaction through the application's own DeliverTx and ante handler.
+    tools/txmode.py compares the two output streams operation by operation (result line, hub events, state delta,
+    query answers). Histories: the corpus files that register keys, generated histories of the profile `keyed`
+    (every actor keyed: the whole history goes through DeliverTx) and a few of the other profiles (two keyed actors
+    among eleven: both paths interleaved on one state; `genesis`: across export / re-import).
+    A disagreement is a defect of the machinery, not of the code under test: the caller raises Broken."""
+    cdir = os.path.join(CACHE, th, 'txmode_%d' % seed)
+    summ = os.path.join(cdir, 'summary.json')
+    with Lock('txmode'):
+        if os.path.exists(summ):
+            return json.load(open(summ))
+        os.makedirs(cdir, exist_ok=True)
+        import txmode
+        hubsim = os.path.join(BIN, 'hubsim')
+        t0 = time.time()
+        files = []
+        for f in sorted(glob.glob(os.path.join(ROOT, 'corpus', '*.ops'))):
+            with open(f) as fi:
+                if any(l.startswith('key ') for l in fi):
+                    files.append(f)
+        plan = [('keyed', seed * 1000 + 900 + j, 150) for j in range(12)]
+        plan += [(p, seed * 1000 + 950 + j, 120) for p in ('sessions', 'genesis', 'extreme') for j in range(2)]
+        generated = []
+        try:
+            from concurrent.futures import ThreadPoolExecutor
+            with ThreadPoolExecutor(max_workers=min(8, os.cpu_count() or 4)) as ex:
+                generated = list(ex.map(lambda a: txmode.generate(hubsim, cdir, a[0], a[1], a[2]), plan))
+            res = txmode.run_all(hubsim, files + generated, jobs=min(8, os.cpu_count() or 4))
+        except (RuntimeError, OSError, subprocess.TimeoutExpired) as e:
+            raise Broken('tx-mode cross-check failed to run: ' + str(e)[-800:])
+        res['histories'] = {'corpus': [os.path.basename(f) for f in files], 'generated': ['%s:%d:%d' % a for a in plan]}
+        res['wall_s'] = round(time.time() - t0, 1)
+        # keep only the histories that are named by a mismatch or an error
+        named = json.dumps(res['mismatches']) + json.dumps(res['errors'])
+        for g in generated:
+            if g not in named:
+                try:
+                    os.remove(g)
+                except OSError:
+                    pass
+        json.dump(res, open(summ, 'w'), indent=1)
+        return res
 
 
 def valid_utf8_strings(text):
